@@ -254,6 +254,7 @@ def native_run(script_path, timeout=120):
     env['PYTHONPATH'] = REPO
     env['PYTHONDONTWRITEBYTECODE'] = '1'
     env['TMPDIR'] = private_tmp()
+    env['PYTHONHASHSEED'] = os.environ.get('PYTHONHASHSEED', '0')
     try:
         p = subprocess.run([VENV_PY, '-B', script_path], capture_output=True, text=True, timeout=timeout, env=env)
         return p.returncode, (p.stdout + p.stderr)[-4000:]
